@@ -97,7 +97,7 @@ func (e *Env) resolve(j Job, tab Table, tok string) (Concrete, bool) {
 		hasAddr := false
 		for _, cl := range classes {
 			switch cl {
-			case "La4", "La6", "La4port", "La4ip", "Lhost":
+			case "La4", "La6", "La4port", "La4ip", "Lhost", "LaMap", "LaAlt", "LaZone", "LaOdd":
 				hasAddr = true
 			}
 		}
@@ -128,7 +128,7 @@ type Stats struct {
 }
 
 var subChars = []string{"/", ".", "_", "-", " ", "0", "9", "z", "Z", ":", "\x01", "\x7f", "\n", "\xc3", "%", "*", "\\", "~", "?", "\xff"}
-var insChars = []string{"/", ".", "_", "0", "a", "\n", " ", ":"}
+var insChars = []string{"/", ".", "_", "0", "a", "\n", " ", ":", "%"}
 
 // Mutations of the accepted paths: every position x {substitutions, deletion,
 // insertion, duplication}; all of them in the thorough tier, a seeded sample
@@ -142,7 +142,11 @@ func (e *Env) MutationJobs(scs []Scn, thorough bool, rng *rand.Rand) []Job {
 		if !e.HasFam(s.Fam) {
 			continue
 		}
-		for v := 0; v < NVariants(s); v++ {
+		nv := NVariants(s)
+		if last := s.Path[len(s.Path)-1]; !thorough && (last == "LaMap" || last == "LaAlt") && nv > 2 {
+			nv = 2 // quick: two of the alternative spellings serve as mutation bases
+		}
+		for v := 0; v < nv; v++ {
 			c := Concrete{Scn: s, Variant: v}
 			base, _ := e.Render(c, dummyTok)
 			for pos := 0; pos <= len(base); pos++ {
